@@ -721,7 +721,7 @@ func (x *Exec) loopHeader(h *ssa.BasicBlock, ci *cfgInfo, pre *State, reach Term
 		post.cells["calls:"+name] = u.W.Fresh("calls", SInt)
 		u.Assume(reach, Ge(post.cells["calls:"+name].(Term), IntLit(0)))
 	}
-	if last, ok := pre.cells["ghost.now"].(Term); ok {
+	if last, ok := pre.cells["ghost.now"].(Term); ok && x.loopCallsClock(h, ci) {
 		nn := u.W.Fresh("now.ns", SInt)
 		u.Assume(reach, Ge(nn, last))
 		post.cells["ghost.now"] = nn
@@ -1025,6 +1025,12 @@ func (x *Exec) loopHeapWrites(h *ssa.BasicBlock, ci *cfgInfo) map[string]bool {
 						if fc.Pure || (fc.HasMod && len(fc.Modifies) == 0) || (!fc.HasMod && !fc.Assumed) {
 							continue
 						}
+						if names, ok := x.frameHeapNames(fc, callee); ok {
+							for _, n := range names {
+								out[n] = true
+							}
+							continue
+						}
 						return false
 					}
 					if isPureExternal(callee) {
@@ -1168,4 +1174,154 @@ func (x *Exec) loopContractCalls(h *ssa.BasicBlock, ci *cfgInfo) []string {
 	}
 	sort.Strings(names)
 	return names
+}
+
+// loopCallsClock: does the loop body (transitively) read the clock?
+func (x *Exec) loopCallsClock(h *ssa.BasicBlock, ci *cfgInfo) bool {
+	seen := map[*ssa.Function]bool{}
+	var scan func(blocks []*ssa.BasicBlock, depth int) bool
+	scan = func(blocks []*ssa.BasicBlock, depth int) bool {
+		for _, b := range blocks {
+			for _, in := range b.Instrs {
+				c, ok := in.(ssa.CallInstruction)
+				if !ok {
+					continue
+				}
+				callee := c.Common().StaticCallee()
+				if callee == nil {
+					if c.Common().IsInvoke() {
+						continue
+					}
+					if _, isB := c.Common().Value.(*ssa.Builtin); isB {
+						continue
+					}
+					return true // unknown function value
+				}
+				switch callee.String() {
+				case "time.Now", "time.Since", "time.Until":
+					return true
+				}
+				if seen[callee] || depth > maxInlineDepth {
+					continue
+				}
+				seen[callee] = true
+				if callee.Blocks != nil && x.u.eng.inRepo(callee) {
+					if scan(callee.Blocks, depth+1) {
+						return true
+					}
+				}
+			}
+		}
+		return false
+	}
+	var blocks []*ssa.BasicBlock
+	for b := range ci.loopBody[h] {
+		blocks = append(blocks, b)
+	}
+	return scan(blocks, 0)
+}
+
+// frameHeapNames: the heaps named by a contract's modifies clause, computed from the static
+// types of its items (without evaluating them).
+func (x *Exec) frameHeapNames(fc *FuncContract, fn *ssa.Function) ([]string, bool) {
+	w := x.u.W
+	var names []string
+	pkg := x.u.eng.typesPkgFor(fc.Pkg)
+	env := &SpecEnv{u: x.u, x: x, pkg: pkg, vars: map[string]SVal{}, bound: map[string]SVal{}}
+	var typeOf func(s *SExpr) types.Type
+	typeOf = func(s *SExpr) types.Type {
+		switch s.Kind {
+		case "ident":
+			for _, p := range fn.Params {
+				if p.Name() == s.Name {
+					return p.Type()
+				}
+			}
+		case "field":
+			t := typeOf(s.Args[0])
+			if t == nil {
+				return nil
+			}
+			if pt, ok := t.Underlying().(*types.Pointer); ok {
+				t = pt.Elem()
+			}
+			if st := structOf(t); st != nil {
+				for i := 0; i < st.NumFields(); i++ {
+					if st.Field(i).Name() == s.Name {
+						return st.Field(i).Type()
+					}
+				}
+			}
+		case "index":
+			t := typeOf(s.Args[0])
+			if t == nil {
+				return nil
+			}
+			switch tt := t.Underlying().(type) {
+			case *types.Slice:
+				return tt.Elem()
+			case *types.Map:
+				return tt.Elem()
+			}
+		}
+		return nil
+	}
+	for _, item := range fc.Modifies {
+		switch {
+		case item == "anything":
+			return nil, false
+		case strings.HasPrefix(item, "ghost(") && strings.HasSuffix(item, ")"):
+			names = append(names, "G."+item[6:len(item)-1])
+		case strings.HasPrefix(item, "heap(") && strings.HasSuffix(item, ")"):
+			var gt types.Type
+			func() {
+				defer func() { recover() }()
+				gt, _ = env.resolveType(item[5 : len(item)-1])
+			}()
+			if gt == nil {
+				return nil, false
+			}
+			if mt, ok := gt.Underlying().(*types.Map); ok {
+				md, mv, mc, _, _ := mapHeaps(w, mt)
+				names = append(names, md, mv, mc)
+			} else {
+				names = append(names, heapName(gt))
+			}
+		case strings.HasSuffix(item, "[*]"):
+			ex, err := ParseSpecExpr(strings.TrimSuffix(item, "[*]"))
+			if err != nil {
+				return nil, false
+			}
+			t := typeOf(ex)
+			if t == nil {
+				return nil, false
+			}
+			switch tt := t.Underlying().(type) {
+			case *types.Slice:
+				names = append(names, heapName(tt.Elem()))
+			case *types.Map:
+				md, mv, mc, _, _ := mapHeaps(w, tt)
+				names = append(names, md, mv, mc)
+			default:
+				return nil, false
+			}
+		case strings.HasSuffix(item, ".*"):
+			ex, err := ParseSpecExpr(strings.TrimSuffix(item, ".*"))
+			if err != nil {
+				return nil, false
+			}
+			t := typeOf(ex)
+			if t == nil {
+				return nil, false
+			}
+			pt, ok := t.Underlying().(*types.Pointer)
+			if !ok {
+				return nil, false
+			}
+			names = append(names, heapName(pt.Elem()))
+		default:
+			return nil, false
+		}
+	}
+	return names, true
 }
